@@ -257,7 +257,8 @@ def witness_specs() -> List[Dict[str, Any]]:
     for links in ([L("INNER", 0, 3), L("LEFT", 1, 2)], [L("LEFT", 0, 3), L("INNER", 1, 2)], [L("OUTER", 0, 3), L("INNER", 1, 2)],
                   [L("INNER", 0, 2), L("LEFT", 1, 2)], [L("INNER", 0, 2), L("LEFT", 0, 3), L("OUTER", 1, 2)],
                   [L("INNER", 0, 2), L("INNER", 0, 2, "j")], [L("INNER", 0, 3), L("LEFT", 1, 2), L("OUTER", 1, 3)],
-                  [L("INNER", 0, 3)], [L("INNER", 0, 2)], [L("INNER", 0, 3), L("INNER", 1, 2)]):
+                  [L("INNER", 0, 3)], [L("INNER", 0, 2)], [L("INNER", 0, 3), L("INNER", 1, 2)],
+                  [L("INNER", 1, 3), L("INNER", 1, 3, "j")], [L("LEFT", 1, 3), L("LEFT", 1, 3, "j"), L("INNER", 0, 2)]):
         out.append({"classes": cl, "use": [1, 3], "cons_cfw": "PA", "links": links, "pair": [1, 3]})
     cl2 = [dict(c, cfw="PD") if c["h"] == 1 else c for c in cl]
     out.append({"classes": cl2, "use": [1, 3], "cons_cfw": "PA", "links": [L("INNER", 0, 3), L("LEFT", 1, 2)], "pair": [1, 3]})
